@@ -1963,6 +1963,25 @@ class Exec:
             return S.pyslice(base, lo, hi)
         raise Unsupported(f"slicing of {base!r} line {node.lineno}")
 
+    def expr_DictComp(self, node, st):
+        """{k: v for k in <fixed-length sequence of ints>}: successive insertions into an int-valued map"""
+        if len(node.generators) != 1 or node.generators[0].ifs:
+            raise Unsupported("dict comprehension with filters / several generators")
+        g = node.generators[0]
+        seq = self.iter_static(g.iter, st)
+        if seq is None:
+            raise Unsupported("dict comprehension over a symbolic sequence")
+        m = MapV.empty("int")
+        for x in seq:
+            s2 = st.copy()
+            base_len = len(s2.pc)
+            self.assign(g.target, x, s2, node)
+            k = S.as_int(self.need_int(self.eval(node.key, s2), s2, node))
+            v = self.need_int(self.eval(node.value, s2), s2, node)
+            st.pc.extend(s2.pc[base_len:])
+            m = m.set(k, v)
+        return m
+
     def expr_ListComp(self, node, st):
         return self.comprehension(node, st, "list")
 
